@@ -38,25 +38,37 @@ class Fn:
         self._loops = None
         self._defs = None
         self._reach = None
+        self._rel = None
 
     # ---- variant-aware reachability: paths on which a local known to hold enum variant k is later matched as another variant are infeasible
     def feasible_reach(self, start, targets, removed_edges=(), start_state=None):
         """Is one of `targets` reachable from block `start` along normal edges, not using `removed_edges`, on a path that is consistent with
-        the enum variants assigned on the way?  Tracks `local = Variant(..)` aggregates through plain moves and `Try::branch`/clone, and prunes
-        the edges of `switch discriminant(local)` that contradict the tracked variant (this is what makes an inlined `helper()?` precise)."""
+        the enum variants / boolean constants assigned on the way?  (See feasible_walk.)"""
         targets = set(targets)
+        hit = []
+        self.feasible_walk(start, removed_edges, start_state, stop=lambda b, first: (b in targets and not first) and hit.append(b) is None)
+        return bool(hit)
+
+    def feasible_walk(self, start=0, removed_edges=(), start_state=None, decide=None, stop=None, untracked=()):
+        """Blocks reachable from `start` on paths that are consistent with what the path itself assigned: tracks `local = Variant(..)`
+        aggregates and `local = const bool/int` through plain moves and `Try::branch`/clone, and prunes the edges of
+        `switch discriminant(local)` / `switch local` that contradict the tracked value (this is what makes an inlined `helper()?` or
+        `if !helper()` precise).  decide(block) may force the successor list of a switch (branch folding under an environment)."""
         removed = set(removed_edges)
         init = frozenset((start_state or {}).items())
         seen = {(start, init)}
-        stack = [(start, init)]
+        stack = [(start, init, True)]
+        blocks = set()
         steps = 0
+        rel = self._relevant_locals() - set(untracked)
         while stack:
-            b, st = stack.pop()
+            b, st, first = stack.pop()
             steps += 1
-            if steps > 20000:
-                return True
-            if b in targets and (b != start or steps > 1):
-                return True
+            if steps > 40000:
+                return set(range(len(self.blocks)))
+            blocks.add(b)
+            if stop is not None and stop(b, first):
+                return blocks
             known = dict(st)
             dsrc = {}
             for s in self.blocks[b].stmts:
@@ -71,12 +83,17 @@ class Fn:
                     continue
                 if rv["k"] == "agg" and rv.get("ak") == "adt" and "variant" in rv:
                     known[d["l"]] = rv["variant"]
+                elif rv["k"] == "use" and "c" in rv["op"] and isinstance(rv["op"]["c"].get("int"), int) and not isinstance(rv["op"]["c"].get("int"), bool):
+                    known[d["l"]] = rv["op"]["c"]["int"]
                 elif rv["k"] == "use" and (rv["op"].get("mv") or rv["op"].get("cp")) and not (rv["op"].get("mv") or rv["op"].get("cp")).get("p"):
                     src = (rv["op"].get("mv") or rv["op"].get("cp"))["l"]
                     if src in known:
                         known[d["l"]] = known[src]
                     else:
                         known.pop(d["l"], None)
+                elif rv["k"] == "unop" and rv.get("op") == "Not" and (rv["a"].get("mv") or rv["a"].get("cp")) and not (rv["a"].get("mv") or rv["a"].get("cp")).get("p") \
+                        and (rv["a"].get("mv") or rv["a"].get("cp"))["l"] in known and self.locals[d["l"]]["ty"] == "bool":
+                    known[d["l"]] = 1 - known[(rv["a"].get("mv") or rv["a"].get("cp"))["l"]]
                 elif rv["k"] == "discr" and not rv["place"].get("p"):
                     dsrc[d["l"]] = rv["place"]["l"]
                     known.pop(d["l"], None)
@@ -93,19 +110,71 @@ class Fn:
                     known.pop(t["dst"]["l"], None)
             if t["k"] == "switch":
                 op = t["op"].get("mv") or t["op"].get("cp")
-                if op and not op.get("p") and op["l"] in dsrc and dsrc[op["l"]] in known:
-                    v = known[dsrc[op["l"]]]
+                v = None
+                if op and not op.get("p"):
+                    if op["l"] in dsrc and dsrc[op["l"]] in known:
+                        v = known[dsrc[op["l"]]]
+                    elif op["l"] in known:
+                        v = known[op["l"]]
+                if v is not None:
                     tg = [c[1] for c in t["cases"] if c[0] == v]
                     succs = tg[:1] if tg else [t["otherwise"]]
-            nst = frozenset(known.items())
+                elif decide is not None:
+                    forced = decide(b)
+                    if forced is not None:
+                        succs = forced
+            nst = frozenset((k, v2) for k, v2 in known.items() if k in rel)
             for s2 in succs:
                 if (b, s2) in removed:
                     continue
                 key = (s2, nst)
                 if key not in seen:
                     seen.add(key)
-                    stack.append(key)
-        return False
+                    stack.append((s2, nst, False))
+        return blocks
+
+    def _relevant_locals(self):
+        """Locals whose tracked value can decide a switch: switch operands, discriminant sources, and what flows into them by plain moves,
+        `!x`, `Try::branch` / clone."""
+        if getattr(self, "_rel", None) is not None:
+            return self._rel
+        rel = set()
+        flows = []   # (dst, src)
+        for bl in self.blocks:
+            for s in bl.stmts:
+                if s["k"] != "assign" or s["dst"].get("p"):
+                    continue
+                rv = s["rv"]
+                d = s["dst"]["l"]
+                if rv["k"] == "discr" and not rv["place"].get("p"):
+                    flows.append((d, rv["place"]["l"]))
+                elif rv["k"] == "use":
+                    o = rv["op"].get("mv") or rv["op"].get("cp")
+                    if o and not o.get("p"):
+                        flows.append((d, o["l"]))
+                elif rv["k"] == "unop" and rv.get("op") == "Not":
+                    o = rv["a"].get("mv") or rv["a"].get("cp")
+                    if o and not o.get("p"):
+                        flows.append((d, o["l"]))
+            t = bl.term
+            if t["k"] == "switch":
+                o = t["op"].get("mv") or t["op"].get("cp")
+                if o and not o.get("p"):
+                    rel.add(o["l"])
+            if t["k"] == "call" and t.get("dst") and not t["dst"].get("p") and t["args"]:
+                nm = t["fn"].get("trait_method") or t["fn"].get("path", "").split("::")[-1]
+                o = t["args"][0].get("mv") or t["args"][0].get("cp")
+                if nm in ("branch", "clone") and o and not o.get("p"):
+                    flows.append((t["dst"]["l"], o["l"]))
+        changed = True
+        while changed:
+            changed = False
+            for d, s0 in flows:
+                if d in rel and s0 not in rel:
+                    rel.add(s0)
+                    changed = True
+        self._rel = rel
+        return rel
 
     # ---- names
     def local_name(self, l):
